@@ -77,6 +77,49 @@ def hchacha20(key, nonce16):
     return uf_only()
 
 
+# ------------------------------------------------------------------------------------------------ mode table
+
+def mode_factory(mode, extra):
+    """Doc/src/cipher/classic.rst + modern.rst + the MODE_* constants every cipher module documents: which mode a mode id
+    selects; ids 8, 10..14 (CCM, SIV, GCM, OCB, KW, KWP) exist only for AES (`extra`).  None: "Mode not supported"."""
+    if mode == 1:
+        return 'ecb'
+    if mode == 2:
+        return 'cbc'
+    if mode == 3:
+        return 'cfb'
+    if mode == 5:
+        return 'ofb'
+    if mode == 6:
+        return 'ctr'
+    if mode == 7:
+        return 'openpgp'
+    if mode == 9:
+        return 'eax'
+    if extra and mode == 8:
+        return 'ccm'
+    if extra and mode == 10:
+        return 'siv'
+    if extra and mode == 11:
+        return 'gcm'
+    if extra and mode == 12:
+        return 'ocb'
+    if extra and mode == 13:
+        return 'kw'
+    if extra and mode == 14:
+        return 'kwp'
+    return None
+
+
+def positional_parameter(mode):
+    """the one positional argument after `mode`: the IV for CBC, CFB, OFB, OpenPGP; the nonce for CCM, EAX, SIV, GCM, OCB"""
+    if mode == 2 or mode == 3 or mode == 5 or mode == 7:
+        return 'IV'
+    if mode == 8 or mode == 9 or mode == 10 or mode == 11 or mode == 12:
+        return 'nonce'
+    return None
+
+
 # ------------------------------------------------------------------------------------------------ key-length domains
 
 def key_len_ok(alg, n):
@@ -180,7 +223,7 @@ def lemma_parity(b):
 
 def des_parity(key):
     """every byte of the key with its parity bit (bit 0) set for odd parity"""
-    return b''.join([bytes([odd_parity_fold(x)]) for x in key])
+    return b''.join([i2osp(odd_parity_fold(x), 1) for x in key])
 
 
 def tdes_key_ok(key):
